@@ -127,4 +127,4 @@ def coq_case(case, outcome):
             ok = all(abs(float(a) - float(b)) < 1e-9
                      for a, b in zip(got, case['truth']))
         out = (f'(KOk {clist(cz(code(v)) for v in got)} {cbool(ok)})')
-    return f'(mkKw {cbool(case["star"])} {cz(trid)} {params} {table} {out})'
+    return f'(mkKw {cbool(case["is_fill"])} {cbool(case["star"])} {cz(trid)} {params} {table} {out})'
